@@ -447,16 +447,20 @@ func runBatch(self string, p *core.Property, tier string, seed uint64, b batch, 
 		rs := readResults(out)
 		results = append(results, rs...)
 		done := from + len(rs)
-		if runErr == nil && done >= b.to {
-			if p.Race {
-				results = append(results, raceReports(p, work, tag, b, rs)...)
-			}
+		code := -1
+		if ee, ok := runErr.(*exec.ExitError); ok {
+			code = ee.ExitCode()
+		}
+		if p.Race {
+			rr, re := raceReports(p, work, tag, b, rs)
+			results = append(results, rr...)
+			errs = append(errs, re...)
+		}
+		// (a race-detector build exits with status 66 when it reported races: not a crash)
+		if (runErr == nil || (p.Race && code == 66)) && done >= b.to {
 			os.Remove(logp)
 			os.Remove(out)
 			return
-		}
-		if p.Race {
-			results = append(results, raceReports(p, work, tag, b, rs)...)
 		}
 		// crash or timeout
 		logb, _ := os.ReadFile(logp)
@@ -464,10 +468,6 @@ func runBatch(self string, p *core.Property, tier string, seed uint64, b batch, 
 		idx := done
 		if ms := startRe.FindAllStringSubmatch(logs, -1); len(ms) > 0 {
 			idx, _ = strconv.Atoi(ms[len(ms)-1][3])
-		}
-		code := -1
-		if ee, ok := runErr.(*exec.ExitError); ok {
-			code = ee.ExitCode()
 		}
 		if code == 124 || code == 137 || strings.Contains(logs, "SIGQUIT: quit") {
 			timeouts++
@@ -572,9 +572,10 @@ func classifyCrash(log string) (lib bool, head, fn string) {
 
 var raceSplit = regexp.MustCompile(`(?m)^==================$`)
 
-func raceReports(p *core.Property, work, tag string, b batch, rs []*core.Result) []*core.Result {
+func raceReports(p *core.Property, work, tag string, b batch, rs []*core.Result) ([]*core.Result, []string) {
 	files, _ := filepath.Glob(filepath.Join(work, tag+".race*"))
 	var out []*core.Result
+	var herrs []string
 	seen := map[string]bool{}
 	for _, f := range files {
 		data, _ := os.ReadFile(f)
@@ -590,25 +591,39 @@ func raceReports(p *core.Property, work, tag string, b batch, rs []*core.Result)
 			r := &core.Result{Prop: p.ID, Family: b.fam, Index: b.from, GOMAXPROCS: b.gmp, Verdict: core.Violated,
 				Key: "race:" + key, Reason: "data race reported by the Go race detector: " + key, Dump: tail(blk, 20000)}
 			if !lib {
-				r.Key = "harness-race:" + key
-				r.Reason = "race between harness-only frames (harness bug): " + key
+				// a race with no library function or payload helper on either side is a bug of the harness itself
+				rp := filepath.Join(work, "harness-race-"+tag+".txt")
+				os.WriteFile(rp, []byte(blk), 0o644)
+				herrs = append(herrs, "race between harness-only frames (harness bug, not a violation): "+key+" (report "+rp+")")
+				continue
 			}
 			out = append(out, r)
 		}
 		os.Remove(f)
 	}
-	return out
+	return out, herrs
 }
 
-var frameRe = regexp.MustCompile(`(?m)^  (\S+)\(`)
+var frameRe = regexp.MustCompile(`(?m)^  (\S+)\(.*\n\s+(\S+?):\d+`)
 
-// raceKey returns the unordered pair of top non-runtime functions of the two accesses.
+// repoDir is where the library sources live (frames are attributed by source file: inlined closures carry the
+// caller's function name).
+func repoDir() string {
+	if d := os.Getenv("VERIF_REPO_DIR"); d != "" {
+		return strings.TrimRight(d, "/") + "/"
+	}
+	return "/repo/"
+}
+
+// raceKey returns the unordered pair of top non-runtime functions of the two accesses and whether either access is
+// in a library source file or in the harness's payload helpers.
 func raceKey(blk string) (string, bool) {
 	// sections: "Write at ... by goroutine N:" / "Previous read at ... by goroutine M:"
 	secRe := regexp.MustCompile(`(?m)^(?:Previous )?(?:[Rr]ead|[Ww]rite|atomic [a-z]+) at .*$`)
 	locs := secRe.FindAllStringIndex(blk, -1)
 	var tops []string
 	lib := false
+	rd := repoDir()
 	for i, l := range locs {
 		end := len(blk)
 		if i+1 < len(locs) {
@@ -620,15 +635,16 @@ func raceKey(blk string) (string, bool) {
 		}
 		top := "?"
 		for _, m := range frameRe.FindAllStringSubmatch(sec, -1) {
-			fn := m[1]
+			fn, file := m[1], m[2]
 			if strings.HasPrefix(fn, "runtime.") || strings.HasPrefix(fn, "sync.") || strings.HasPrefix(fn, "sync/atomic.") || strings.HasPrefix(fn, "reflect.") || strings.HasPrefix(fn, "internal/") {
 				continue
 			}
 			top = fn
+			if (strings.HasPrefix(file, rd) && !strings.HasSuffix(file, "_test.go")) || strings.Contains(fn, "props.Payload") {
+				lib = true
+				top = fn + "@" + strings.TrimPrefix(file, rd)
+			}
 			break
-		}
-		if strings.Contains(top, "github.com/joeycumines/go-bigbuff.") || strings.Contains(top, "props.Payload") {
-			lib = true
 		}
 		tops = append(tops, strings.TrimPrefix(top, "github.com/joeycumines/go-bigbuff."))
 	}
